@@ -322,8 +322,8 @@ gen_gauss(Src& s, int size)
           const double sig = fw[d].get<double>() / vox[d].get<double>() / 2.3548;
           const int mkd = mk[d].get<int>();
           const int lb = sig == 0 ? 0 : mkd > 0 ? mkd / 2 : int(std::ceil(5.3 * sig));
-          margin[d] = lb + int(s.range(0, 1));
-          c["dlen"][d] = 2 * margin[d].get<int>() + int(s.range(1, 3));
+          margin[d] = int(s.range(0, 2)); // random values in a border of this width, constant box inside
+          c["dlen"][d] = 2 * margin[d].get<int>() + 2 * lb + int(s.range(1, 3));
         }
     }
   c["fwhm"] = fw;
@@ -364,8 +364,8 @@ gen_metz(Src& s, int size)
             pw[d] = 0.;
           const int mkd = mk[d].get<int>();
           const int lb = fw[d].get<double>() == 0 ? 0 : mkd > 0 ? mkd / 2 : (pw[d].get<double>() == 0 ? 9 : 16);
-          margin[d] = lb;
-          c["dlen"][d] = 2 * lb + int(s.range(1, 3));
+          margin[d] = int(s.range(0, 2));
+          c["dlen"][d] = 2 * margin[d].get<int>() + 2 * lb + int(s.range(1, 3));
         }
     }
   c["fwhm"] = fw;
